@@ -559,3 +559,258 @@ func ruleFatalCloses(r *Run, p *Prog, rule string) {
 		r.Ob(rule, FnName(m)+"/forwards-close", p.Pos(m.Pos()), fwd, true, tern(fwd, "forwards Close to a wrapped io.Closer", tn+".Close does not forward to the wrapped writer"))
 	}
 }
+
+// ALERT — the drop report reaches the user's alerter (C11 "reported"): (a) whenever TryNext moves
+// readIndex forward by more than one, it calls alerter.Alert with (new − old) on every path to the
+// return; (b) NewManyToOne stores the caller's alerter (a default only when it is nil);
+// (c) AlertFunc.Alert forwards its argument unconditionally; (d) diode.NewWriter hands the ring the
+// user's Alerter itself, or a function that calls it with the same count on every path.
+func ruleAlertWiring(r *Run, p *Prog, rule string) {
+	try := p.Method(diodesRel, "ManyToOne", "TryNext")
+	if r.Anchor(try != nil, rule, "(*ManyToOne).TryNext") {
+		isAlert := func(in ssa.Instruction) (*ssa.Call, bool) {
+			c, ok := in.(*ssa.Call)
+			if !ok || !c.Call.IsInvoke() || c.Call.Method.Name() != "Alert" {
+				return nil, false
+			}
+			fv, _ := loadedField(c.Call.Value)
+			return c, fv != nil && fname(fv) == "alerter"
+		}
+		nSkip := 0
+		eachInstr(try, func(b *ssa.BasicBlock, i int, in ssa.Instruction) {
+			st, ok := in.(*ssa.Store)
+			if !ok {
+				return
+			}
+			fa, ok := st.Addr.(*ssa.FieldAddr)
+			if !ok || fname(fieldVar(fa)) != "readIndex" {
+				return
+			}
+			if bo, ok := st.Val.(*ssa.BinOp); ok && bo.Op == token.ADD {
+				if c, ok := constInt(bo.Y); ok && c == 1 {
+					if fv, _ := loadedField(bo.X); fv != nil && fname(fv) == "readIndex" {
+						return // the ordinary increment
+					}
+				}
+			}
+			nSkip++
+			// every path from the skip to a return reports it
+			escapes, path := pathExists(try, st, isReturn, func(x ssa.Instruction) bool { _, ok := isAlert(x); return ok }, nil)
+			// … or the alert came first, in the same guarded region (dominates the store)
+			var dom *ssa.Call
+			eachInstr(try, func(b2 *ssa.BasicBlock, j int, x ssa.Instruction) {
+				if c, ok := isAlert(x); ok && (b2 == b && j < i || b2 != b && b2.Dominates(b)) && len(necessaryEdges(try, c)) == len(necessaryEdges(try, st)) {
+					dom = c
+				}
+			})
+			okc := !escapes || dom != nil
+			r.Ob(rule, FnName(try)+"/skip-reported", p.Pos(st.Pos()), okc, true, tern(okc, "readIndex is fast-forwarded only together with alerter.Alert", "readIndex is moved forward (messages skipped) on a path that never calls alerter.Alert: dropped messages are not reported "+strings.Join(blockPath(p, path), "→")))
+			// the count is new − old
+			var al *ssa.Call
+			eachInstr(try, func(b2 *ssa.BasicBlock, j int, x ssa.Instruction) {
+				if c, ok := isAlert(x); ok && al == nil {
+					al = c
+				}
+			})
+			if al != nil && len(al.Call.Args) == 1 {
+				v := al.Call.Args[0]
+				for {
+					if cv, ok := v.(*ssa.Convert); ok {
+						v = cv.X
+						continue
+					}
+					break
+				}
+				okn := false
+				if bo, ok := v.(*ssa.BinOp); ok && bo.Op == token.SUB && sameValue(bo.X, st.Val) {
+					if fv, _ := loadedField(bo.Y); fv != nil && fname(fv) == "readIndex" {
+						// the old index must be read before it is overwritten
+						ld := bo.Y.(ssa.Instruction)
+						okn = ld.Block() == b && posOf(ld).i < i || ld.Block() != b && ld.Block().Dominates(b)
+					}
+				}
+				r.Ob(rule, FnName(try)+"/count", p.Pos(al.Pos()), okn, true, tern(okn, "Alert receives (new readIndex − old readIndex)", "the count handed to Alert is "+descr(al.Call.Args[0])+", not the number of skipped messages (new − old readIndex, old read before the store)"))
+			}
+		})
+		r.Ob(rule, FnName(try)+"/skip-sites", p.Pos(try.Pos()), nSkip >= 1, true, fmt.Sprintf("%d fast-forward store(s) of readIndex", nSkip))
+	}
+	// (b)
+	if nm := p.Func(diodesRel, "NewManyToOne"); r.Anchor(nm != nil, rule, "NewManyToOne") {
+		var par *ssa.Parameter
+		for _, q := range nm.Params {
+			if _, ok := q.Type().Underlying().(*types.Interface); ok {
+				par = q
+			}
+		}
+		found := false
+		eachInstr(nm, func(b *ssa.BasicBlock, i int, in ssa.Instruction) {
+			st, ok := in.(*ssa.Store)
+			if !ok {
+				return
+			}
+			fa, ok := st.Addr.(*ssa.FieldAddr)
+			if !ok || fname(fieldVar(fa)) != "alerter" {
+				return
+			}
+			found = true
+			okc := par != nil && valueIsParamOrNilDefault(nm, st.Val, par)
+			r.Ob(rule, FnName(nm)+"/stores-alerter", p.Pos(st.Pos()), okc, true, tern(okc, "the ring keeps the caller's alerter (a no-op only when it is nil)", "the ring's alerter is "+descr(st.Val)+", not the caller's: drops are reported to nobody"))
+		})
+		r.Ob(rule, FnName(nm)+"/alerter-field", p.Pos(nm.Pos()), found, true, "alerter field initialised")
+	}
+	// (c)
+	if af := p.Method(diodesRel, "AlertFunc", "Alert"); r.Anchor(af != nil, rule, "AlertFunc.Alert") {
+		okc := len(af.Params) == 2 && mustCallWith(af, af.Params[0], af.Params[1])
+		r.Ob(rule, FnName(af)+"/forwards", p.Pos(af.Pos()), okc, true, tern(okc, "AlertFunc.Alert calls the function with the count on every path", "AlertFunc.Alert does not call the wrapped function with the missed count on every path"))
+	}
+	// (d)
+	if nw := p.Func("diode", "NewWriter"); r.Anchor(nw != nil, rule, "diode.NewWriter") {
+		var par *ssa.Parameter
+		for _, q := range nw.Params {
+			if nt := namedOf(q.Type()); nt != nil && nt.Obj().Name() == "Alerter" {
+				par = q
+			}
+		}
+		found := false
+		eachInstr(nw, func(b *ssa.BasicBlock, i int, in ssa.Instruction) {
+			c, ok := in.(*ssa.Call)
+			if !ok {
+				return
+			}
+			sc := staticCallee(&c.Call)
+			if sc == nil || sc.Name() != "NewManyToOne" || len(c.Call.Args) < 2 {
+				return
+			}
+			found = true
+			v := c.Call.Args[1]
+			if mi, ok := v.(*ssa.MakeInterface); ok {
+				v = mi.X
+			}
+			v = stripChange(v)
+			okc := false
+			why := descr(v)
+			if par != nil {
+				if mc, ok := v.(*ssa.MakeClosure); ok {
+					// a wrapper: must call the user's alerter with its own argument on every path
+					fn := mc.Fn.(*ssa.Function)
+					for k, fvr := range fn.FreeVars {
+						if k < len(mc.Bindings) && bindingIsParam(nw, mc.Bindings[k], par) && len(fn.Params) == 1 {
+							if mustCallWith(fn, fvr, fn.Params[0]) {
+								okc = true
+							}
+						}
+					}
+					why = "a wrapper closure that does not call the user's alerter on every path"
+				} else {
+					okc = valueIsParamOrNilDefault(nw, v, par)
+				}
+			}
+			r.Ob(rule, FnName(nw)+"/user-alerter", p.Pos(c.Pos()), okc, true, tern(okc, "the ring reports drops to the user's Alerter", "the ring's alerter is "+why+": dropped messages are not (always) reported to the Alerter given to NewWriter"))
+		})
+		r.Ob(rule, FnName(nw)+"/ring", p.Pos(nw.Pos()), found, true, "NewManyToOne call found")
+	}
+}
+
+// bindingIsParam: a closure binding that is the parameter itself or the address of the local the
+// parameter was spilled to.
+func bindingIsParam(f *ssa.Function, v ssa.Value, par *ssa.Parameter) bool {
+	if v == ssa.Value(par) {
+		return true
+	}
+	if al, ok := v.(*ssa.Alloc); ok {
+		for _, ref := range referrersOf(al) {
+			if st, ok := ref.(*ssa.Store); ok && st.Addr == ssa.Value(al) && st.Val == ssa.Value(par) {
+				return true
+			}
+		}
+	}
+	return false
+}
+
+// valueIsParamOrNilDefault: v is par, possibly replaced by something else only where par == nil.
+func valueIsParamOrNilDefault(f *ssa.Function, v ssa.Value, par *ssa.Parameter) bool {
+	v = stripChange(v)
+	if v == ssa.Value(par) {
+		return true
+	}
+	// spilled parameter: load of the alloc that holds it
+	if ld, ok := v.(*ssa.UnOp); ok && ld.Op == token.MUL {
+		if al, ok := ld.X.(*ssa.Alloc); ok {
+			okAll, sawPar := true, false
+			for _, ref := range referrersOf(al) {
+				st, ok := ref.(*ssa.Store)
+				if !ok || st.Addr != ssa.Value(al) {
+					continue
+				}
+				if st.Val == ssa.Value(par) {
+					sawPar = true
+					continue
+				}
+				if !underNilTest(f, st, par, al) {
+					okAll = false
+				}
+			}
+			return okAll && sawPar
+		}
+	}
+	phi, ok := v.(*ssa.Phi)
+	if !ok {
+		return false
+	}
+	sawPar := false
+	for k, e := range phi.Edges {
+		e = stripChange(e)
+		if e == ssa.Value(par) {
+			sawPar = true
+			continue
+		}
+		pred := phi.Block().Preds[k]
+		if !underNilTest(f, pred.Instrs[len(pred.Instrs)-1], par, nil) {
+			return false
+		}
+	}
+	return sawPar
+}
+
+func underNilTest(f *ssa.Function, at ssa.Instruction, par *ssa.Parameter, spill *ssa.Alloc) bool {
+	for _, c := range necessaryCmps(f, at) {
+		if c.Op != token.EQL {
+			continue
+		}
+		x, y := c.X, c.Y
+		if isNilConst(x) {
+			x, y = y, x
+		}
+		if !isNilConst(y) {
+			continue
+		}
+		if x == ssa.Value(par) {
+			return true
+		}
+		if ld, ok := x.(*ssa.UnOp); ok && ld.Op == token.MUL && spill != nil && ld.X == ssa.Value(spill) {
+			return true
+		}
+	}
+	return false
+}
+
+// mustCallWith: every entry→return path of fn calls the function value `callee` (a parameter,
+// a free variable or a load of one) with `arg` as its only argument.
+func mustCallWith(fn *ssa.Function, callee ssa.Value, arg ssa.Value) bool {
+	isIt := func(in ssa.Instruction) bool {
+		c, ok := in.(*ssa.Call)
+		if !ok || c.Call.IsInvoke() || len(c.Call.Args) != 1 || c.Call.Args[0] != arg {
+			return false
+		}
+		v := stripChange(c.Call.Value)
+		if v == callee {
+			return true
+		}
+		if ld, ok := v.(*ssa.UnOp); ok && ld.Op == token.MUL && ld.X == callee {
+			return true
+		}
+		return false
+	}
+	escapes, _ := pathExists(fn, nil, isReturn, isIt, nil)
+	return !escapes
+}
